@@ -97,9 +97,11 @@ Crash == /\ Crashes
             \/ /\ pc \in {"m_params", "m_sched", "m_loss"}                                  \* mid-write of an opaque file
                /\ folder' = [folder EXCEPT ![FileOf(pc)].st = "partial"]
             \/ /\ pc = "m_csv"                                                              \* mid-write of the record file: k complete
-               /\ \E k \in 0..mem[1].rows : \E c \in BOOLEAN :                              \* records, possibly one more cut mid-field
+               /\ \E k \in 0..mem[1].rows : \E c \in BOOLEAN : \E garbled \in BOOLEAN :         \* records, possibly one more cut mid-field
                     /\ k + (IF c THEN 1 ELSE 0) <= mem[1].rows
-                    /\ folder' = [folder EXCEPT !["csv"] = [st |-> "partial", run |-> mem[1].run, rows |-> k, cut |-> c, tags |-> <<>>]]
+                    /\ garbled => c                   \* a record cut inside a field may or may not still parse (observed on the real parser)
+                    /\ folder' = [folder EXCEPT !["csv"] = [st |-> IF garbled THEN "garbled" ELSE "partial", run |-> mem[1].run,
+                                                             rows |-> k, cut |-> c, tags |-> <<>>]]
             \/ /\ pc = "w_h5"                                                               \* the dataset was resized but not filled
                /\ folder["h5"].st = "full" /\ mem[1].rows > Len(folder["h5"].tags)
                /\ folder' = [folder EXCEPT !["h5"].tags = @ \o [i \in 1..(mem[1].rows - Len(@)) |-> "zero"], !["h5"].rows = mem[1].rows]
@@ -109,7 +111,7 @@ Crash == /\ Crashes
          /\ UNCHANGED <<mem, prev, nsaves, sql, sqlpc, sqlprev, sqlfailed>>
 
 (* what load_calibrator_state returns *)
-Unreadable(f) == folder[f].st \in {"absent", "trunc"} \/ (f # "csv" /\ folder[f].st = "partial")
+Unreadable(f) == folder[f].st \in {"absent", "trunc", "garbled"} \/ (f # "csv" /\ folder[f].st = "partial")
 Components == [params |-> <<folder["params"].run, folder["params"].rows>>,
                sched  |-> <<folder["sched"].run, folder["sched"].rows>>,
                loss   |-> <<folder["loss"].run, folder["loss"].rows>>,
